@@ -30,6 +30,9 @@ type RefSpec struct {
 	AType   string            `json:"atype,omitempty"`
 	Ann     map[string]string `json:"ann,omitempty"`
 	Pre     bool              `json:"pre,omitempty"` // stored (and indexed) before the run
+	// SubjVar: how this manifest spells its subject descriptor: 0 = exactly, 1 = under the
+	// Docker media type, 2 = without size. The digest is what names the subject.
+	SubjVar int `json:"subj_var,omitempty"`
 }
 
 type ReferrersParams struct {
@@ -86,6 +89,9 @@ func (p *referrersProp) Gen(r *Rand, tier string, idx int) any {
 			AType: pick(r, []string{"application/vnd.example.sbom", "application/vnd.example.sig", ""}), Pre: r.Chance(0.25)}
 		if r.Chance(0.5) {
 			rs.Ann = map[string]string{"k": fmt.Sprint("v", i)}
+		}
+		if r.Chance(0.25) {
+			rs.SubjVar = r.Range(1, 2)
 		}
 		rp.Refs = append(rp.Refs, rs)
 	}
@@ -224,6 +230,12 @@ func buildSubject(i int) (ocispec.Descriptor, []byte) {
 }
 
 func buildReferrer(i int, rs RefSpec, subject ocispec.Descriptor) builtRef {
+	switch rs.SubjVar {
+	case 1:
+		subject.MediaType = "application/vnd.docker.distribution.manifest.v2+json"
+	case 2:
+		subject.Size = 0
+	}
 	ann := map[string]string{"referrer": fmt.Sprint(i)}
 	for k, v := range rs.Ann {
 		ann[k] = v
